@@ -13,7 +13,7 @@ CONSTANTS
   Export = "%s"
   Kinds = {"call", "push"}
   Routes = {"reg", "unreg", "unknown"}
-  Houts = {"ok", "status", "panic"}
+  Houts = {"ok", "status", "panic", "unpackable"}
 ACTION_CONSTRAINT Emit
 CHECK_DEADLOCK FALSE
 '''
@@ -51,12 +51,12 @@ def run(prop, tier, verdict):
         raise Broken('Dispatch.tla exported nothing')
     scen = [json.loads(l) for l in open(exp) if l.strip()]
     total = len(scen)
-    if total < 10000:
+    if total < 30000:
         raise Broken('Dispatch.tla exported only %d scenarios' % total)
     exhaustive = tier == 'thorough'
     if not exhaustive:
         rnd = random.Random(seedv)
-        scen = rnd.sample(scen, 2500)
+        scen = rnd.sample(scen, 3500)
     for i, s in enumerate(scen):
         s['id'] = 'd%d' % i
     scfile = os.path.join(wd, 'scen.ndjson')
